@@ -17,7 +17,7 @@
 (* One state of this specification = one call of one function with one  *)
 (* parameter tuple; TLC enumerates all tuples in the configured         *)
 (* bounds and checks the algebraic laws below on every one of them.     *)
-EXTENDS Shape, TLC
+EXTENDS ElementMaps, TLC
 
 CONSTANTS Shapes,       \* set of array shapes (sequences of positive integers)
           ShiftVals,    \* explicit resize / resample shifts
@@ -30,108 +30,6 @@ CONSTANTS Shapes,       \* set of array shapes (sequences of positive integers)
 
 VARIABLES op, par, out
 vars == <<op, par, out>>
-
-None == <<>>   \* the Python None for optional sequence arguments (explicit sequences are non-empty)
-
-\* ---------------------------------------------------------------- helpers
-\* gather: every output position reads at most one input element;
-\* Src(d, k) is the 0-based input coordinate on axis d for output
-\* coordinate k, or -1 for "nothing there".
-Gather(oshape, ishape, Src(_, _)) ==
-  [p \in 1..Prod(oshape) |->
-     LET k == MultiOf(p - 1, oshape)
-         j == [d \in 1..Len(oshape) |-> Src(d, k[d])]
-     IN IF \E d \in 1..Len(oshape) : j[d] < 0 THEN {} ELSE {FlatOf(j, ishape) + 1}]
-
-SeqsOver(S, n) == [1..n -> S]
-
-\* axes arguments: None, or a sequence of one or two distinct axes written with
-\* non-negative or negative indices
-AxesArgs(r) ==
-  {None} \cup {<<a>> : a \in (-r)..(r - 1)}
-         \cup {ab \in ((-r)..(r - 1)) \X ((-r)..(r - 1)) : ab[1] % r # ab[2] % r}
-AxesSet(axes, r) == IF axes = None THEN 0..(r - 1) ELSE {axes[i] % r : i \in 1..Len(axes)}
-
-\* ---------------------------------------------------------------- resize
-\* "zero-pads or crops with index n//2 of the input aligned to index m//2 of
-\* the output (or by the given shifts)".  Shapes of different rank are first
-\* left-padded with ones (numpy convention) and the result reshaped.
-DefaultShift(n, m) == Max2((n \div 2) - (m \div 2), 0)
-ResizeSrc(n, m, is, os, k) ==
-  LET t == k - os IN IF t >= 0 /\ is + t < n THEN is + t ELSE -1
-ResizeOut(ishape, oshape, ishift, oshift) ==
-  LET r  == Max2(Len(ishape), Len(oshape))
-      i1 == PadLeft(ishape, r)
-      o1 == PadLeft(oshape, r)
-      is == IF ishift = None THEN [d \in 1..r |-> DefaultShift(i1[d], o1[d])] ELSE ishift
-      os == IF oshift = None THEN [d \in 1..r |-> DefaultShift(o1[d], i1[d])] ELSE oshift
-  IN Gather(o1, i1, LAMBDA d, k : ResizeSrc(i1[d], o1[d], is[d], os[d], k))
-\* the centre-alignment reading of the default, stated independently
-ResizeCentreOut(ishape, oshape) ==
-  LET r  == Max2(Len(ishape), Len(oshape))
-      i1 == PadLeft(ishape, r)
-      o1 == PadLeft(oshape, r)
-  IN Gather(o1, i1, LAMBDA d, k :
-        LET j == k - (o1[d] \div 2) + (i1[d] \div 2) IN IF j >= 0 /\ j < i1[d] THEN j ELSE -1)
-
-\* ---------------------------------------------------------------- flip / circshift
-FlipOut(shape, axes) ==
-  LET A == AxesSet(axes, Len(shape)) IN
-  Gather(shape, shape, LAMBDA d, k : IF (d - 1) \in A THEN shape[d] - 1 - k ELSE k)
-
-\* total shift applied to axis d (0-based) by the (axis, shift) pairs
-RECURSIVE RollOn(_, _, _, _)
-RollOn(d, axes, shifts, r) ==
-  IF Len(shifts) = 0 THEN 0
-  ELSE (IF (IF axes = None THEN Len(shifts) = r - d ELSE Head(axes) % r = d) THEN Head(shifts) ELSE 0)
-       + RollOn(d, IF axes = None THEN None ELSE Tail(axes), Tail(shifts), r)
-\* element at position j moves to (j + shift) mod n
-CircshiftOut(shape, shifts, axes) ==
-  LET r == Len(shape) IN
-  Gather(shape, shape, LAMBDA d, k : (k - RollOn(d - 1, axes, shifts, r)) % shape[d])
-
-\* ---------------------------------------------------------------- down / upsample
-CeilDiv(a, b) == (a + b - 1) \div b
-DownShape(ishape, f, s) == [d \in 1..Len(ishape) |-> CeilDiv(ishape[d] - s[d], f[d])]
-DownsampleOut(ishape, f, s) ==
-  Gather(DownShape(ishape, f, s), ishape, LAMBDA d, k : s[d] + k * f[d])
-\* upsample(input, oshape, factors, shift): input has shape DownShape(oshape, f, s)
-UpsampleOut(oshape, f, s) ==
-  Gather(oshape, DownShape(oshape, f, s), LAMBDA d, k :
-     IF k >= s[d] /\ (k - s[d]) % f[d] = 0 THEN (k - s[d]) \div f[d] ELSE -1)
-
-\* ---------------------------------------------------------------- blocks
-\* input [batch..., N_1..N_D]; blocks of extent B_d start at every multiple of
-\* S_d that leaves the whole window inside the array
-NumBlks(N, B, S) == [d \in 1..Len(N) |-> (N[d] - B[d] + S[d]) \div S[d]]
-A2BShape(batch, N, B, S) == batch \o NumBlks(N, B, S) \o B
-A2BOut(batch, N, B, S) ==
-  LET D == Len(N)  nb == Len(batch)
-      osh == A2BShape(batch, N, B, S)
-      ish == batch \o N
-  IN [p \in 1..Prod(osh) |->
-        LET k == MultiOf(p - 1, osh)
-            j == [d \in 1..(nb + D) |->
-                    IF d <= nb THEN k[d]
-                    ELSE k[nb + (d - nb)] * S[d - nb] + k[nb + D + (d - nb)]]
-        IN {FlatOf(j, ish) + 1}]
-\* blocks_to_array: "sums blocks back into place, so overlapping positions
-\* accumulate and positions not covered stay zero"
-B2AOut(batch, N, B, S) ==
-  LET D == Len(N)  nb == Len(batch)
-      nblk == NumBlks(N, B, S)
-      ish == A2BShape(batch, N, B, S)
-      osh == batch \o N
-  IN [p \in 1..Prod(osh) |->
-        LET i == MultiOf(p - 1, osh)
-            \* per block axis: the (block number, offset) pairs that land on i
-            pairs(d) == {nc \in (0..(nblk[d] - 1)) \X (0..(B[d] - 1)) : nc[1] * S[d] + nc[2] = i[nb + d]}
-            allpairs == UNION {pairs(d) : d \in 1..D}
-            choices == {c \in [1..D -> allpairs] : \A d \in 1..D : c[d] \in pairs(d)}
-        IN {FlatOf([d \in 1..(nb + 2 * D) |->
-                      IF d <= nb THEN i[d]
-                      ELSE IF d <= nb + D THEN c[d - nb][1] ELSE c[d - nb - D][2]], ish) + 1
-             : c \in choices}]
 
 \* ---------------------------------------------------------------- actions
 Init == op = "init" /\ par = <<>> /\ out = <<>>
@@ -208,11 +106,6 @@ Next == DoResize \/ DoFlip \/ DoCircshift \/ DoDownsample \/ DoUpsample \/ DoA2B
 Spec == Init /\ [][Next]_vars
 
 \* ---------------------------------------------------------------- laws (checked by TLC on every state)
-\* composition of two label maps: first f (ishape -> mid), then g (mid -> out)
-Compose2(g, f) == [p \in DOMAIN g |-> UNION {f[q] : q \in g[p]}]
-IdMap(n) == [p \in 1..n |-> {p}]
-TransposeOf(f, nin) == [q \in 1..nin |-> {p \in DOMAIN f : q \in f[p]}]
-
 TypeOK == op = "init" \/ (Len(out) = Prod(par.oshape) /\ \A p \in DOMAIN out : out[p] \subseteq 1..Prod(par.ishape))
 
 \* default resize is the centre-aligned pad/crop
